@@ -43,7 +43,7 @@ theorem get_spec {n : Node α} (key : Key) (hi : n.Inv) (hs : Sorted n.toList) :
       have : ¬ nk < nk := by grind
       simp [this]
     · have h' : ¬ key = nk := fun e => h e.symm
-      by_cases hlt : nk < key <;> simp [h, h', hlt, lookup]
+      by_cases hlt : nk < key <;> simp [h, h', hlt]
   | inner nk h s l r ihl ihr =>
     obtain ⟨hsl, hsr, hbl, hbr, hmem⟩ := bounds hi hs
     rw [inv_inner] at hi
